@@ -31,8 +31,8 @@ package internals
 //@   ensures[C07] valptr: result.ValPtr == destPtr
 //@   ensures[C07] path: result.Path == path
 //@   ensures[C07] dtype: result.DType == dtype
-//@   ensures[C07,C05] cancatch_reset: !result.CanCatch
-//@   ensures[C07,C05] exit_reset: !result.Exit
+//@   ensures[C07,C05,C01,C02] cancatch_reset: !result.CanCatch
+//@   ensures[C07,C05,C01,C02] exit_reset: !result.Exit
 //@   ensures[C07] hascaught_reset: !result.HasCaught
 
 //@ func (*ExecCtx).NewValidateSchemaCtx(c, valPtr, path, dtype)
@@ -45,8 +45,8 @@ package internals
 //@   ensures[C07] valptr: result.ValPtr == valPtr
 //@   ensures[C07] path: result.Path == path
 //@   ensures[C07] dtype: result.DType == dtype
-//@   ensures[C07,C05] cancatch_reset: !result.CanCatch
-//@   ensures[C07,C05] exit_reset: !result.Exit
+//@   ensures[C07,C05,C01,C02] cancatch_reset: !result.CanCatch
+//@   ensures[C07,C05,C01,C02] exit_reset: !result.Exit
 //@   ensures[C07] hascaught_reset: !result.HasCaught
 
 //@ func NewZogIssue()
